@@ -9,21 +9,15 @@
    aggressive-locking attempt stays in lastRetryUnnecessaryLocks until the request put it into
    currentLockedKeys) and F31 (KVFilter); their replays are regression Examples below.
    [C06_contract_satisfiable_everywhere], [C06_can_always_finish], [C06_every_run_can_finish_clean]
-   show that the hypotheses never exclude a state or a store answer. *)
+   show that the hypotheses never exclude a state or a store answer.
+   This file holds statements only (Theorem ... Proof. exact <lemma>. Qed. + Print Assumptions) and Examples; the proof
+   scripts are in Locks/Proofs*.v (those of the top-level corollaries and the tactics of the Examples: ProofsTop.v). *)
 From Coq Require Import List NArith ZArith Bool Lia.
 From Verif Require Import Locks.Model Locks.ProofsBase Locks.ProofsInv Locks.ProofsCommit Locks.ProofsLock
-  Locks.ProofsLockAgg Locks.ProofsLockAll Locks.ProofsMain Locks.ProofsKA Locks.ProofsSched Locks.ProofsPrim Locks.ProofsEarly Locks.ProofsHeld Locks.Contract Locks.ProofsHeldLock.
+  Locks.ProofsLockAgg Locks.ProofsLockAll Locks.ProofsMain Locks.ProofsKA Locks.ProofsSched Locks.ProofsPrim Locks.ProofsEarly Locks.ProofsHeld Locks.Contract Locks.ProofsHeldLock Locks.ProofsTop.
 Import ListNotations.
 Open Scope N_scope.
 
-Ltac wf_solve :=
-  vm_compute; repeat split; try reflexivity; try (intros; discriminate);
-  try (intros; split; [reflexivity | intros; first [discriminate | contradiction]]);
-  try (intros; contradiction);
-  try (let k := fresh "k" in let Hk := fresh "Hk" in
-       intros k Hk; repeat (destruct Hk as [Hk|Hk]; [subst k; vm_compute; intros; first [discriminate | contradiction | tauto]|]);
-       contradiction).
-Ltac split_hyps := repeat match goal with H : _ /\ _ |- _ => destruct H end.
 
 
 (* The invariant: every lock the store holds for S is still known to the client (flagged key,
@@ -33,7 +27,7 @@ Theorem C06_bookkeeping_inv :
   forall (p : bool) (evs : list ev), wf_run (init p) evs ->
   let s := run (init p) evs in
   (forall l, In l (store s) -> cov_book s l \/ cov_task s l) /\ lwc_ok s /\ cnt_ok s.
-Proof. intros p evs H. exact (bookkeeping_inv p evs H). Qed.
+Proof. exact C06_bookkeeping_inv_proof. Qed.
 Print Assumptions C06_bookkeeping_inv.
 
 Theorem C06_inv_step :
@@ -47,7 +41,7 @@ Theorem C06_no_leftover :
   forall (p : bool) (evs : list ev), wf_run (init p) evs ->
   let s := run (init p) evs in
   valid s = false -> tasks s = [] -> store s = [].
-Proof. intros p evs H s Hv Ht. apply no_leftover_from; auto. apply bookkeeping_inv; auto. Qed.
+Proof. exact C06_no_leftover_proof. Qed.
 Print Assumptions C06_no_leftover.
 
 (* A LockKeys call that sent a request and failed: every key the store locked during the call is in
@@ -79,12 +73,7 @@ Theorem C06_aggressive_retry_releases_unneeded :
   wf_run (init p) (before ++ EAggRetry :: mid ++ EAggDone :: after) ->
   tasks s = [] -> agg s = None ->
   forall k, In k (keys_of (cur a)) -> ~ In k (flags s) -> ~ In k (keys_of (store s)).
-Proof.
-  intros p before mid after a s0 Ha s Hwf Ht Hag k Hk Hnf Hin.
-  unfold keys_of in Hin. apply in_map_iff in Hin. destruct Hin as (l & El & Hin).
-  destruct (quiescent_store_flags s l (bookkeeping_inv p _ Hwf) Ht Hag Hin) as (_ & Hf & _).
-  rewrite El in Hf. auto.
-Qed.
+Proof. exact C06_aggressive_retry_releases_unneeded_proof. Qed.
 Print Assumptions C06_aggressive_retry_releases_unneeded.
 
 (* the general form of the previous statement *)
@@ -92,10 +81,7 @@ Theorem C06_quiescent_store_within_flags :
   forall (p : bool) (evs : list ev), wf_run (init p) evs ->
   let s := run (init p) evs in
   tasks s = [] -> agg s = None -> forall l, In l (store s) -> In (fst l) (flags s) /\ valid s = true.
-Proof.
-  intros p evs H s Ht Ha l Hl.
-  destruct (quiescent_store_flags s l (bookkeeping_inv p evs H) Ht Ha Hl) as (A & B & _). auto.
-Qed.
+Proof. exact C06_quiescent_store_within_flags_proof. Qed.
 Print Assumptions C06_quiescent_store_within_flags.
 
 (* the same from ANY state that satisfies the invariant (not only the initial one), any events *)
@@ -111,21 +97,21 @@ Theorem C06_no_leftover_after_drain :
   forall (p : bool) (evs : list ev) (n : nat), wf_run (init p) evs ->
   let s := run (init p) evs in
   valid s = false -> (length (tasks s) <= n)%nat -> store (drain n s) = [].
-Proof. intros p evs n H s Hv Hl. apply no_leftover_drain; auto. apply bookkeeping_inv; auto. Qed.
+Proof. exact C06_no_leftover_after_drain_proof. Qed.
 Print Assumptions C06_no_leftover_after_drain.
 
 (* no hidden vacuity: EVERY state (reachable or not) can be extended by well-formed events to a
    finished, drained state — so the premises of C06_no_leftover are reachable from everywhere *)
 Theorem C06_can_always_finish :
   forall s, exists evs, wf_run s evs /\ valid (run s evs) = false /\ tasks (run s evs) = [].
-Proof. intros s. exists (finish_evs s). apply can_always_finish. Qed.
+Proof. exact C06_can_always_finish_proof. Qed.
 Print Assumptions C06_can_always_finish.
 
 Theorem C06_every_run_can_finish_clean :
   forall (p : bool) (evs : list ev), wf_run (init p) evs ->
   exists more, wf_run (init p) (evs ++ more) /\
     let s := run (init p) (evs ++ more) in valid s = false /\ tasks s = [] /\ store s = [].
-Proof. intros p evs H. exact (every_run_can_finish_clean p evs H). Qed.
+Proof. exact C06_every_run_can_finish_clean_proof. Qed.
 Print Assumptions C06_every_run_can_finish_clean.
 
 (* in every state there are well-formed events of every kind, with ANY answer of the store: writes,
@@ -208,13 +194,7 @@ Example C06_keepalive_run :
   (let s := run (init true) (firstn 5 keepalive_run) in ka s = KRunning 2 /\ primary s = Some 2) /\
   ka (run (init true) keepalive_run) = KClosed.
 Proof.
-  split; [|vm_compute; auto 10].
-  unfold keepalive_run. cbn [wf_run_ts]. repeat split;
-    try (vm_compute; repeat split; try reflexivity; intros; discriminate);
-    try exact I;
-    cbn [ts_contract]; intros a k e' Ha Hf; apply findk_In in Hf; vm_compute in Ha; try discriminate;
-    inversion Ha; subst a; simpl in Hf; intuition;
-    match goal with H : (_, _) = (_, _) |- _ => inversion H; subst; vm_compute; intros; discriminate end.
+  split; [|vm_compute; auto 10]. unfold keepalive_run. wf_ts_solve.
 Qed.
 
 (* the committer's primary is never a "ghost": under the caller contract (incl. [ts_contract]) the primary key is
@@ -259,7 +239,7 @@ Theorem C06_leftover_only_under_unfinished_release :
   forall (p : bool) (evs : list ev), wf_run (init p) evs ->
   let s := run (init p) evs in
   valid s = false -> forall l, In l (store s) -> exists t, In t (tasks s) /\ releases t l = true.
-Proof. intros p evs H s Hv l Hl. apply leftover_under_unfinished_tasks; auto. apply bookkeeping_inv; auto. Qed.
+Proof. exact C06_leftover_only_under_unfinished_release_proof. Qed.
 Print Assumptions C06_leftover_only_under_unfinished_release.
 
 (* a rollback lost for good on key 2 (its batch never completes) while the batch of key 1 completes *)
@@ -521,21 +501,9 @@ Theorem C06_tracked_keys_hold_locks_checked :
   valid s = true ->
   forall k, (In k (flags s) \/ in_cur s k = true) ->
   exists l, In (k, l) (store s) /\ forall t, In t (tasks s) -> releases t (k, l) = false.
-Proof.
-  intros evs Hw Hb s Hv k Hk. apply (tracked_keys_hold_locks evs); auto.
-  - apply wf_run_heldb_sound; auto.
-  - tauto.
-Qed.
+Proof. exact C06_tracked_keys_hold_locks_checked_proof. Qed.
 Print Assumptions C06_tracked_keys_hold_locks_checked.
 
-Ltac held_solve :=
-  vm_compute; repeat split; intros; try discriminate;
-  repeat match goal with
-         | H : _ \/ _ |- _ => destruct H
-         | H : False |- _ => destruct H
-         | H : TPessRb _ _ = TPessRb _ _ |- _ => inversion H; clear H; subst
-         | H : Some _ = Some _ |- _ => inversion H; clear H; subst
-         end; subst; try reflexivity; try discriminate; try (vm_compute; reflexivity); try tauto; auto 6.
 
 (* a run inside the contract: a failed multi-key call, its retry with a fresh ts, an attempt with a failed call followed by
    Retry, a key taken over without a request, Done — pending rollbacks run late *)
